@@ -142,6 +142,14 @@ def run(ctx, chk):
             cases.append(("TypeInt sign=%d rid=%s" % (sign, rid), rid, "TypeInt", [lit(B), lit(sign)], False, False,
                           [(("sym", "RID"), ("enum", "Type::Integer", [B, sign == 1]))] if rid else []))
         cases.append(("TypeFloat rid=%s" % rid, rid, "TypeFloat", [lit(B)], False, False, [(("sym", "RID"), ("enum", "Type::Float", [B]))] if rid else []))
+        # every operand list the grammar row allows after the width: optional operands present
+        from ..model import core_row
+        row = core_row(ctx, "TypeFloat")
+        extra = [k for k, q in (row["operands"] if row else [])[2:] if q in ("ZeroOrOne", "ZeroOrMore")]
+        if extra:
+            cases.append(("TypeFloat with optional %s rid=%s" % ("+".join(extra), rid), rid, "TypeFloat",
+                          [lit(B)] + [("enum", "Operand::" + k, [("sym", "OPT")]) for k in extra], False, False,
+                          [(("sym", "RID"), ("enum", "Type::Float", [B]))] if rid else []))
         cases.append(("TypeVoid rid=%s" % rid, rid, "TypeVoid", [], False, False, []))
         cases.append(("TypeVector rid=%s" % rid, rid, "TypeVector", [("enum", "Operand::IdRef", [("sym", "X")]), lit(4)], False, False, []))
         for op in ("IAdd", "Constant", "FunctionParameter", "Load"):
